@@ -485,16 +485,25 @@ def run_check(pid, tier, seed, replay=None):
         seen_min = set()
         known_hits = {}
         t_classify_end = time.time() + 300
-        for op, inp, o, m, sname in res.holds_fail[:200]:
+        def match_known_op(op, i, ob):
+            for k in known_open:
+                try:
+                    if k['op'] == op and prop.known_match(k, op, i, ob):
+                        return k
+                except Exception:
+                    pass
+            return None
+        # failures outside every known class first: a new violation must not hide behind known ones
+        pres = []
+        for idx, (op, inp, o, m, sname) in enumerate(res.holds_fail[:5000]):
+            pres.append(match_known_op(op, inp, o) if known_open else None)
+        order = [i for i, p_ in enumerate(pres) if p_ is None][:200] + [i for i, p_ in enumerate(pres) if p_ is not None][:200]
+        for idx in order:
+            op, inp, o, m, sname = res.holds_fail[idx]
+
             def match_known(i, ob, op=op):
-                for k in known_open:
-                    try:
-                        if k['op'] == op and prop.known_match(k, op, i, ob):
-                            return k
-                    except Exception:
-                        pass
-                return None
-            pre = match_known(inp, o)
+                return match_known_op(op, i, ob)
+            pre = pres[idx]
 
             def still(c, op=op, pre=pre):
                 ok_c, o_c, _m = holds_on_impl(prop, driver, op, c)
